@@ -9,13 +9,20 @@ def run(rep, tier, seed, replay=None):
     res, changed = proof_stage(rep, 'C15', extra_trusted=[
         'engine skeleton Model/Engine.v is hand-written (tied by the dirty-flag correspondence, the event-level correspondence with the real algorithms replayed, and trace validation)',
         'interface hypotheses WF, H1 on the real algorithms: validated on every traced pass, not proved',
-        'C15_second_pass_silent needs a reflexive key: for the real cache this is C02_store_hit (NaN-free known dimensions, finite definite available space)'])
+        'C15_second_pass_silent needs a reflexive key: for the real cache this is C02_store_hit (NaN-free known dimensions, finite definite available space)',
+        'engine over the REAL cache (Model/EngineReal.v memo_real / gmark_dirty, forest layer Model/EngineForestG.v): hand-written, tied by the real-cache event-level correspondence (no exact-key hook); '
+        'the real algorithms are replayed from recorded scripts, output sizes are probed by re-running the pass on a clone up to a query limit'])
     rc, out, binp, dt = build_harness('release')
     if rc != 0:
         rep.add_broken('build', 'harness', out[-1500:])
         return
     engine_correspondence(rep, binp, seed + 15, 400 if tier == 'quick' else 4000)
     engine_event_correspondence(rep, binp, seed + 15, 600 if tier == 'quick' else 6000)
+    # ---- the same histories WITHOUT the exact-key hook against the engine over the REAL cache (wave 7c, notes/REALHIST.md): memo_real /
+    # gmark_dirty / rclear / rdirty of Model/EngineReal.v; hit/miss by the lossy Cache.compat on binary32
+    esc = bool([c for c in changed if c.startswith('gen_cache:') or 'compute_cached_layout' in c or 'compute_child_layout' in c
+                or 'compute_hidden_layout' in c or 'mark_dirty' in c])
+    engine_event_correspondence(rep, binp, seed + 15, 3000 if tier != 'quick' or esc else 300, real=True)
     n = 1500 if tier == 'quick' and not rep.broken else 15000
     start = 0
     if replay:
